@@ -330,9 +330,21 @@ func fieldOwner(t types.Type, i int) (owner string, field string) {
 	}
 	name := typeStr(t)
 	if s, ok := t.Underlying().(*types.Struct); ok && i < s.NumFields() {
-		return name, s.Field(i).Name()
+		return name, canonicalField(name, s.Field(i))
 	}
 	return name, fmt.Sprintf("f%d", i)
+}
+
+// canonicalField: unexported members that the rules identify by what they hold keep one name whatever the
+// source calls them: the Go type a schema node is bound to (the reflect.Type member of Object and Input)
+// is "meta".
+func canonicalField(owner string, f *types.Var) string {
+	if owner == "Object" || owner == "Input" {
+		if n, ok := f.Type().(*types.Named); ok && n.Obj().Pkg() != nil && n.Obj().Pkg().Path() == "reflect" && n.Obj().Name() == "Type" {
+			return "meta"
+		}
+	}
+	return f.Name()
 }
 
 func sameVal(a, b ssa.Value) bool {
@@ -932,4 +944,89 @@ func resolveLocal(v ssa.Value) ssa.Value {
 		v = w
 	}
 	return v
+}
+
+// pathGuards: the branch facts that hold in b, including what follows from a disjunction. Where a dominator
+// of b has several predecessors (the body of `if p || q { .. }`), each incoming edge carries its own facts;
+// the edges whose facts contradict what is known in b (the same condition with the opposite outcome) cannot
+// be the one taken, and what the remaining edges agree on holds in b as well:
+// `if p || q { if !p { X } }` gives q in X.
+func pathGuards(b *ssa.BasicBlock) []guard {
+	gs := blockGuards(b)
+	norm := make([]guard, len(gs))
+	for i, g := range gs {
+		norm[i] = normGuard(g)
+	}
+	contradicts := func(alt []guard) bool {
+		for _, a := range alt {
+			a = normGuard(a)
+			for _, g := range norm {
+				if sameCond(a.cond, g.cond) && a.val != g.val {
+					return true
+				}
+			}
+		}
+		return false
+	}
+	for d := b; d != nil; d = d.Idom() {
+		if len(d.Preds) < 2 {
+			continue
+		}
+		var feasible [][]guard
+		for _, p := range d.Preds {
+			alt := edgeGuards(p, d)
+			if !contradicts(alt) {
+				feasible = append(feasible, alt)
+			}
+		}
+		if len(feasible) == 0 {
+			break
+		}
+		for _, g0 := range feasible[0] {
+			n0 := normGuard(g0)
+			all := true
+			for _, alt := range feasible[1:] {
+				found := false
+				for _, g := range alt {
+					if n := normGuard(g); sameCond(n.cond, n0.cond) && n.val == n0.val {
+						found = true
+					}
+				}
+				if !found {
+					all = false
+				}
+			}
+			if all {
+				gs = append(gs, g0)
+			}
+		}
+		break
+	}
+	return gs
+}
+
+// sameCond: two branch conditions test the same thing: the same SSA value, or the same comparison of the
+// same operands written twice (go/ssa does not merge common subexpressions); loads are compared by path.
+func sameCond(a, b ssa.Value) bool {
+	if a == b {
+		return true
+	}
+	x, ok1 := a.(*ssa.BinOp)
+	y, ok2 := b.(*ssa.BinOp)
+	if !ok1 || !ok2 || x.Op != y.Op {
+		return false
+	}
+	same := func(p, q ssa.Value) bool {
+		if p == q {
+			return true
+		}
+		if kp, ok := p.(*ssa.Const); ok {
+			kq, ok := q.(*ssa.Const)
+			return ok && kp.Value == kq.Value && types.Identical(kp.Type(), kq.Type()) || ok && kp.Value != nil && kq.Value != nil && kp.Value.ExactString() == kq.Value.ExactString()
+		}
+		_, isLoadP := p.(*ssa.UnOp)
+		_, isLoadQ := q.(*ssa.UnOp)
+		return isLoadP && isLoadQ && sameVal(p, q)
+	}
+	return same(x.X, y.X) && same(x.Y, y.Y)
 }
